@@ -1,6 +1,8 @@
 package comp
 
 import (
+	"path/filepath"
+	"os"
 	"strconv"
 	"fmt"
 	"math/rand"
@@ -11,6 +13,7 @@ import (
 	"github.com/f1bonacc1/process-compose/src/app"
 	"github.com/f1bonacc1/process-compose/src/command"
 	"github.com/f1bonacc1/process-compose/src/health"
+	"github.com/f1bonacc1/process-compose/src/loader"
 	"github.com/f1bonacc1/process-compose/src/types"
 	"github.com/f1bonacc1/process-compose/src/verif"
 )
@@ -241,6 +244,61 @@ func (c *updateC) Exec(op string) string {
 				return "bad-op"
 			}
 			return fmt.Sprintf("%v", a.Compare(&b))
+		case len(w) == 2 && w[0] == "upvar" && (w[1] == "0" || w[1] == "1"):
+			// a project loaded from a file: `p` renders a project-level variable into its command, `q` does
+			// not; the project is then updated from the same file with (1) or without (0) a new value of
+			// that variable - the definition text of `p` is the same, its rendered command is not
+			dir, _ := os.MkdirTemp("", "pcupvar")
+			defer os.RemoveAll(dir)
+			yml := func(g string) string {
+				return "vars:\n  G: \"" + g + "\"\nprocesses:\n  p:\n    command: \"run {{.G}}\"\n  q:\n    command: \"run fixed\"\n"
+			}
+			load := func(g string) (*types.Project, error) {
+				f := filepath.Join(dir, "pc.yaml")
+				_ = os.WriteFile(f, []byte(yml(g)), 0o644)
+				return loader.Load(&loader.LoaderOptions{FileNames: []string{f}, IsInternalLoader: true})
+			}
+			c.sc = &scaleC{h: &supH{}}
+			c.sc.h.reset("coarse", false)
+			c.prev = map[string]int{}
+			prj, err := load("one")
+			if err != nil {
+				return "load-error"
+			}
+			r, err := app.NewProjectRunner((&app.ProjectOpts{}).WithProject(prj).WithIsTuiOn(true))
+			if err != nil {
+				return "runner-error"
+			}
+			c.sc.h.r = r
+			if err := verif.S.Go("api", "main", func() { _ = r.Run() }); err != nil {
+				return "DIVERGED"
+			}
+			if q := c.sc.quiesce(); q != "" {
+				return q
+			}
+			verif.S.TakeLog()
+			_ = c.dump(nil)
+			g2 := "one"
+			if w[1] == "1" {
+				g2 = "two"
+			}
+			prj2, err := load(g2)
+			if err != nil {
+				return "load-error"
+			}
+			var status map[string]string
+			if err := verif.S.Go("api", "u1", func() { status, _ = r.UpdateProject(prj2) }); err != nil {
+				return "DIVERGED"
+			}
+			if q := c.sc.quiesce(); q != "" {
+				return q
+			}
+			verif.S.TakeLog()
+			args := ""
+			if pc, ok := r.VerifProject().Processes["p"]; ok {
+				args = strings.ReplaceAll(pc.Command, " ", "_")
+			}
+			return c.dump(status) + " cmd=" + args
 		case len(w) == 2 && w[0] == "upinit":
 			c.sc = &scaleC{h: &supH{}}
 			c.sc.h.reset("coarse", false)
@@ -286,6 +344,8 @@ func (c *updateC) Gen(r *rand.Rand, tier string, emit func(string)) {
 	for _, f := range fieldNames() {
 		emit("cmp " + f)
 	}
+	emit("upvar 1")
+	emit("upvar 0")
 	for g, n := range map[string]int{"rp": 8, "lp": 8, "sd": 5, "rs": 5, "dep": 4, "env": 4} {
 		for x := 0; x < n; x++ {
 			for y := 0; y < n; y++ {
